@@ -391,6 +391,11 @@ def index2slice(pv, strict=False):
         raise ValueError(f"`pv` has {pv.ndim} dimensions; must be 1d")
     if pv.size == 0:
         return slice(0)
+    pv_in = pv
+    if pv.dtype.kind in "iu":
+        # unsigned or narrow integer types would wrap around in the
+        # arithmetic below
+        pv = pv.astype(np.int64)
     if pv.size == 1:
         stop = pv[0] + 1
         if stop == 0:
@@ -404,7 +409,7 @@ def index2slice(pv, strict=False):
             stop = None
         return slice(pv[0], stop, d0)
     if not strict:
-        return pv
+        return pv_in
     raise ValueError("invalid partition vector for conversion to slice")
 
 
